@@ -15,6 +15,7 @@
 //	cbs …same…                                real coinbase SanityCheck first, then the context check
 //	sw <validate> <nArb> <k> {<index>}*k      signer loop of checkSchnorrWithdrawFromSidechain
 //	blk <auxOk> <powOk> <tsOk> <maxTx> <flags> CheckBlockSanity on an assembled, serialized and decoded block (see execBlk)
+//	txs <height> <tx bytes> / blkc <block bytes> / cfm <confirm bytes>   systematic sweep on a real in-process node (see execTxs)
 //	rcr <code> / ina <tx|bc> <code>            RegisterCR key extraction; checkCRCArbitratorsSignatures m/n read (see execRcr, execIna)
 //	rdc <addrs> <np> {<code> <registered>}*    ReturnDepositCoin SpecialContextCheck signer loop (see execRdc)
 package main
@@ -26,12 +27,15 @@ import (
 	"math"
 	"math/big"
 	mrand "math/rand"
+	"os"
 	"regexp"
 	"strconv"
 	"strings"
 	"time"
 
 	"elaverif/harness/hx"
+	"elaverif/harness/regnet"
+	"elaverif/harness/wire"
 
 	"github.com/elastos/Elastos.ELA/auxpow"
 	"github.com/elastos/Elastos.ELA/blockchain"
@@ -173,7 +177,8 @@ func setupNode() {
 	functions.GetTransactionParameters = transaction.GetTransactionparameters
 	cbParams = config.GetDefaultParams()
 	cbMock = &state.ArbitratorsMock{}
-	blockchain.DefaultLedger = &blockchain.Ledger{Arbitrators: cbMock}
+	mockLedger = &blockchain.Ledger{Arbitrators: cbMock}
+	blockchain.DefaultLedger = mockLedger
 }
 
 // heights of the three regimes of checkCoinbaseTransactionContext under the mock
@@ -572,9 +577,149 @@ func execIna(t []string) string {
 	return "later"
 }
 
+// ---------------------------------------------------------------- systematic sweep on a real node
+//
+//	txs <height> <transaction bytes>     decode, BlockChain.CheckTransactionSanity, then (if accepted)
+//	                                     BlockChain.CheckTransactionContext at <height>, on an in-process regnet node
+//	                                     (real chain store, DPoS state, CR committee, UTXO set with the genesis coins)
+//	blkc <block bytes>                   decode, CheckBlockSanity, then CheckBlockContext against the genesis node
+//
+// The model has nothing to predict but the absence of a panic: both sides answer `nopanic`
+// (the stage reached is recorded in the histogram only).
+
+var (
+	realNode   *regnet.Node
+	realLedger *blockchain.Ledger
+	mockLedger *blockchain.Ledger
+	lastStage  string
+)
+
+func getNode() *regnet.Node {
+	if realNode == nil {
+		dir, err := os.MkdirTemp("", "c03-regnet")
+		if err != nil {
+			panic("harness: tempdir")
+		}
+		n, err := regnet.NewNode(dir, regnet.Options{CoinbaseMaturity: 1, NoPoolEvents: true})
+		if err != nil {
+			panic("harness: regnet node: " + err.Error())
+		}
+		realNode = n
+		realLedger = blockchain.DefaultLedger
+	}
+	return realNode
+}
+
+func useLedger(real bool) {
+	if real {
+		getNode()
+		blockchain.DefaultLedger = realLedger
+	} else {
+		blockchain.DefaultLedger = mockLedger
+	}
+}
+
+func execTxs(t []string) (res string) {
+	n := getNode()
+	height := uint32(atoi(t[1]))
+	raw := hx.UnHex(t[2])
+	lastStage = "undecodable"
+	var tx interfaces.Transaction
+	func() {
+		defer func() { recover() }() // decoding is C02's subject
+		r := bytes.NewReader(raw)
+		x, err := functions.GetTransactionByBytes(r)
+		if err != nil {
+			return
+		}
+		if err := x.Deserialize(r); err != nil {
+			return
+		}
+		tx = x
+	}()
+	if tx == nil {
+		return "nopanic"
+	}
+	_ = tx.Hash() // every real path (block sanity, mempool) hashes the transaction before checking it
+	lastStage = "sanity-reject"
+	if err := n.Chain.CheckTransactionSanity(height, tx); err != nil {
+		if os.Getenv("C03_STAGES") != "" {
+			lastStage = fmt.Sprintf("sanity-reject:%d", int(err.Code()))
+		}
+		return "nopanic"
+	}
+	lastStage = "context-reject"
+	if _, err := n.Chain.CheckTransactionContext(height, tx, 0, uint32(time.Now().Unix())); err != nil {
+		lastStage = fmt.Sprintf("context-reject:%d", int(err.Code()))
+		return "nopanic"
+	}
+	lastStage = "accepted"
+	return "nopanic"
+}
+
+func execBlkc(t []string) string {
+	n := getNode()
+	lastStage = "undecodable"
+	var blk types.Block
+	ok := false
+	func() {
+		defer func() { recover() }()
+		if err := blk.Deserialize(bytes.NewReader(hx.UnHex(t[1]))); err == nil {
+			ok = true
+		}
+	}()
+	if !ok {
+		return "nopanic"
+	}
+	lastStage = "sanity-reject"
+	if err := n.Chain.CheckBlockSanity(&blk); err != nil {
+		return "nopanic"
+	}
+	lastStage = "context-reject"
+	if err := n.Chain.CheckBlockContext(&blk, n.Chain.BestChain); err != nil {
+		return "nopanic"
+	}
+	lastStage = "accepted"
+	return "nopanic"
+}
+
+//	cfm <confirm bytes>    decode a payload.Confirm, then ConfirmSanityCheck, ConfirmContextCheck,
+//	                       IllegalConfirmContextCheck and, on each vote and the proposal, the Proposal*/Vote* checks
+//	                       of blockchain/confirmvalidator.go, against the real node's arbitrators
+
+func execCfm(t []string) string {
+	getNode()
+	lastStage = "undecodable"
+	c := &payload.Confirm{}
+	ok := false
+	func() {
+		defer func() { recover() }()
+		if err := c.Deserialize(bytes.NewReader(hx.UnHex(t[1]))); err == nil {
+			ok = true
+		}
+	}()
+	if !ok {
+		return "nopanic"
+	}
+	lastStage = "checked"
+	_ = blockchain.ConfirmSanityCheck(c)
+	_ = blockchain.ConfirmContextCheck(c)
+	_ = blockchain.IllegalConfirmContextCheck(c)
+	_ = blockchain.ProposalCheck(&c.Proposal)
+	_ = blockchain.ProposalCheckByHeight(&c.Proposal, 4000000)
+	_ = blockchain.IllegalProposalContextCheck(&c.Proposal)
+	for i := range c.Votes {
+		_ = blockchain.VoteCheck(&c.Votes[i])
+		_ = blockchain.VoteCheckByHeight(&c.Votes[i], 4000000)
+		_ = blockchain.IllegalVoteContextCheck(&c.Votes[i])
+	}
+	return "nopanic"
+}
+
 // ---------------------------------------------------------------- exec
 
 func exec(t []string) string {
+	useLedger(t[0] == "txs" || t[0] == "blkc" || t[0] == "cfm")
 	switch t[0] {
 	case "std":
 		return b2s(contract.IsStandard(exact(hx.UnHex(t[1]))))
@@ -616,6 +761,12 @@ func exec(t []string) string {
 		return execBlk(t)
 	case "rdc":
 		return execRdc(t)
+	case "txs":
+		return execTxs(t)
+	case "blkc":
+		return execBlkc(t)
+	case "cfm":
+		return execCfm(t)
 	case "rcr":
 		return execRcr(t)
 	case "ina":
@@ -644,7 +795,26 @@ func oracle(t []string, out string) *hx.Violation {
 	return &hx.Violation{Kind: "panic-" + t[0], Detail: "validation panicked: " + hx.LastPanic()}
 }
 
+// histogram key: op/class as hx does by default, and for the sweep ops the stage that was reached
+func bucket(t []string, out string) string {
+	if (t[0] == "txs" || t[0] == "blkc" || t[0] == "cfm") && out != "panic" {
+		return t[0] + "/" + lastStage
+	}
+	f := strings.Fields(out)
+	cls := "value"
+	if len(f) > 0 && (f[0] == "ok" || f[0] == "err" || f[0] == "panic" || f[0] == "true" || f[0] == "false" || f[0] == "accept" || f[0] == "reject") {
+		cls = f[0]
+		if f[0] == "err" && len(f) > 1 {
+			cls += " " + f[1]
+		}
+	}
+	return t[0] + "/" + cls
+}
+
 func nontrivial(t []string, out string) bool {
+	if t[0] == "txs" || t[0] == "blkc" || t[0] == "cfm" {
+		return lastStage != "undecodable"
+	}
 	switch t[0] {
 	case "std", "sch", "ms", "ct":
 		return len(t[1]) >= 2*23
@@ -1141,8 +1311,219 @@ func genRcrIna(g *hx.Gen) {
 	}
 }
 
+func sweepCodes(r *hx.Rand, n *regnet.Node) []byte {
+	switch r.Pick(0, 0, 0, 0, 0, 0, 0, 1, 2, 3, 4, 5, 6, 7, 8, 9) {
+	case 0, 1, 2:
+		return n.Accounts[r.Intn(len(n.Accounts))].RedeemScript
+	case 3:
+		return append([]byte{0x51, 33}, r.Bytes(33)...)
+	case 4:
+		return msScript(r, []byte{0x51}, 2, []byte{0x52}, []byte{0xAE})
+	case 5:
+		return []byte{byte(r.Pick(0xAC, 0xAE, 0xAF, 0x00))}
+	case 6:
+		return []byte{}
+	case 7:
+		c := r.Bytes(23 + r.Intn(20))
+		c[len(c)-1] = byte(r.Pick(0xAC, 0xAE, 0xAF, 0xAD))
+		return c
+	case 8:
+		return msScript(r, []byte{0x52}, 3, []byte{0x55}, []byte{0xAE})
+	default:
+		return r.Bytes(r.Intn(5))
+	}
+}
+
+func genSweep(g *hx.Gen) {
+	r := g.R
+	n := getNode()
+	utxos, err := n.UTXOs(0)
+	if err != nil || len(utxos) == 0 {
+		panic("harness: no genesis coins")
+	}
+	_, tip := n.Tip()
+	heights := []uint32{4000000, 4000000, 4000000, 4000000, tip + 1, 400000, 1500000}
+	covered := map[ctypes.TxType]bool{}
+	for _, tt := range wire.CoveredTypes {
+		covered[tt] = true
+	}
+	for tti := 0; tti < 256; tti++ {
+		tt := ctypes.TxType(tti)
+		if _, err := transaction.GetTransaction(tt); err != nil {
+			continue
+		}
+		build := func() ([]byte, uint32) {
+			var pl interfaces.Payload
+			var pv byte
+			if covered[tt] && r.Chance(65) {
+				pl, pv = wire.GenPayload(r, tt)
+				if r.Chance(60) {
+					pv = byte(r.Pick(0, 0, 0, 1, 2, 3))
+				}
+			} else {
+				pv = byte(r.Pick(0, 0, 0, 1, 2, 3))
+				p0, err := interfaces.GetPayload(tt, pv)
+				if err != nil || p0 == nil {
+					pv = 0
+					p0, _ = interfaces.GetPayload(tt, 0)
+				}
+				pl = p0
+			}
+			var ins []*ctypes.Input
+			switch r.Pick(0, 0, 1, 2, 2, 2, 2, 2) {
+			case 0: // no inputs
+			case 1: // unknown reference
+				in := &ctypes.Input{Sequence: uint32(r.U64())}
+				copy(in.Previous.TxID[:], r.Bytes(32))
+				ins = append(ins, in)
+			default:
+				k := 1 + r.Intn(2)
+				for i := 0; i < k && i < len(utxos); i++ {
+					u := utxos[(i+r.Intn(len(utxos)))%len(utxos)]
+					ins = append(ins, &ctypes.Input{Previous: ctypes.OutPoint{TxID: u.TxID, Index: uint16(u.Index)}, Sequence: 0})
+				}
+			}
+			if tt == ctypes.CoinBase {
+				ins = []*ctypes.Input{{Previous: ctypes.OutPoint{TxID: common.EmptyHash, Index: math.MaxUint16}, Sequence: math.MaxUint32}}
+			}
+			var outs []*ctypes.Output
+			for i, k := 0, r.Pick(0, 1, 1, 1, 2, 3); i < k; i++ {
+				var ph common.Uint168
+				copy(ph[:], r.Bytes(21))
+				ph[0] = byte(r.Pick(0x21, 0x21, 0x1f, 0x12, 0x4b, 0x3f, 0x67))
+				if r.Chance(60) {
+					ph = n.Accounts[r.Intn(len(n.Accounts))].ProgramHash
+				}
+				outs = append(outs, &ctypes.Output{AssetID: core.ELAAssetID, Value: common.Fixed64(r.U64() >> uint(34+r.Intn(28))), ProgramHash: ph,
+					Type: ctypes.OTNone, Payload: &outputpayload.DefaultOutput{}})
+			}
+			var progs []*program.Program
+			for i, k := 0, r.Pick(0, 1, 1, 1, 2); i < k; i++ {
+				progs = append(progs, &program.Program{Code: sweepCodes(r, n), Parameter: r.Bytes(r.Pick(0, 64, 65, 130))})
+			}
+			attrs := []*ctypes.Attribute{{Usage: ctypes.Nonce, Data: r.Bytes(8)}}
+			if r.Chance(10) {
+				attrs = nil
+			}
+			var raw []byte
+			func() {
+				defer func() { recover() }()
+				tx := functions.CreateTransaction(ctypes.TxVersion09, tt, pv, pl, attrs, ins, outs, 0, progs)
+				buf := new(bytes.Buffer)
+				if err := tx.Serialize(buf); err == nil {
+					raw = buf.Bytes()
+				}
+			}()
+			return raw, heights[r.Intn(len(heights))]
+		}
+		passesSanity := func(raw []byte, h uint32) (ok bool) {
+			defer func() { recover() }()
+			rd := bytes.NewReader(raw)
+			tx, err := functions.GetTransactionByBytes(rd)
+			if err != nil || tx.Deserialize(rd) != nil {
+				return false
+			}
+			_ = tx.Hash()
+			return n.Chain.CheckTransactionSanity(h, tx) == nil
+		}
+		for rep := 0; rep < g.N(12, 120); rep++ {
+			// adaptive: draw up to 8 candidates, emit the first and (if any) the first one the real sanity check lets through
+			var first, good []byte
+			var hf, hg uint32
+			for try := 0; try < 8 && good == nil; try++ {
+				raw, h := build()
+				if raw == nil {
+					continue
+				}
+				if first == nil {
+					first, hf = raw, h
+				}
+				if passesSanity(raw, h) {
+					good, hg = raw, h
+				}
+			}
+			if first != nil {
+				g.Emit("txs %d %s", hf, hx.Hex(first))
+				if r.Chance(40) {
+					g.Emit("txs %d %s", hf, hx.Hex(wire.Mutate(r, first)))
+				}
+			}
+			if good != nil && !bytes.Equal(good, first) {
+				g.Emit("txs %d %s", hg, hx.Hex(good))
+				for k := 0; k < 2; k++ {
+					g.Emit("txs %d %s", hg, hx.Hex(wire.Mutate(r, good)))
+				}
+			}
+		}
+	}
+}
+
+// blocks for CheckBlockSanity + CheckBlockContext on the real node: valid mined blocks on the genesis
+// block (coinbase only, or with transfers spending genesis coins), with the transaction list emptied,
+// reduced to non-coinbase transactions, duplicated, and byte-level mutations of all of them.
+func genBlkc(g *hx.Gen) {
+	r := g.R
+	n := getNode()
+	utxos, _ := n.UTXOs(0)
+	ser := func(b *types.Block) []byte {
+		buf := new(bytes.Buffer)
+		if err := b.Serialize(buf); err != nil {
+			return nil
+		}
+		return buf.Bytes()
+	}
+	for i := 0; i < g.N(12, 80); i++ {
+		var txs []interfaces.Transaction
+		for k, m := 0, r.Intn(3); k < m && k < len(utxos); k++ {
+			u := utxos[(i+k)%len(utxos)]
+			tx, err := n.Transfer(0, []ctypes.OutPoint{{TxID: u.TxID, Index: uint16(u.Index)}},
+				[]regnet.Out{{To: 1 + r.Intn(regnet.NumUsers), Value: u.Value - 10000}}, r.U64())
+			if err == nil {
+				txs = append(txs, tx)
+			}
+		}
+		blk, err := n.Mine(n.Genesis, txs, regnet.MineOpts{Timestamp: n.Genesis.Timestamp + 1 + uint32(r.Intn(1000))})
+		if err != nil {
+			continue
+		}
+		variants := [][]byte{ser(blk)}
+		empty := *blk
+		empty.Transactions = nil
+		variants = append(variants, ser(&empty))
+		if len(blk.Transactions) > 1 {
+			nocb := *blk
+			nocb.Transactions = blk.Transactions[1:]
+			variants = append(variants, ser(&nocb))
+			dup := *blk
+			dup.Transactions = append(append([]interfaces.Transaction{}, blk.Transactions...), blk.Transactions[1])
+			variants = append(variants, ser(&dup))
+		}
+		twocb := *blk
+		twocb.Transactions = append(append([]interfaces.Transaction{}, blk.Transactions...), blk.Transactions[0])
+		variants = append(variants, ser(&twocb))
+		for _, v := range variants {
+			if v == nil {
+				continue
+			}
+			g.Emit("blkc %s", hx.Hex(v))
+			for k := 0; k < 2; k++ {
+				g.Emit("blkc %s", hx.Hex(wire.Mutate(r, v)))
+			}
+		}
+	}
+}
+
 func gen(g *hx.Gen) {
 	mrand.Seed(int64(g.Seed))
+	genSweep(g)
+	genBlkc(g)
+	for i := 0; i < g.N(150, 2000); i++ {
+		raw := wire.Ser(wire.GenConfirm(g.R))
+		g.Emit("cfm %s", hx.Hex(raw))
+		if g.R.Chance(60) {
+			g.Emit("cfm %s", hx.Hex(wire.Mutate(g.R, raw)))
+		}
+	}
 	genRcrIna(g)
 	genBlk(g)
 	genRdc(g)
@@ -1156,5 +1537,11 @@ func gen(g *hx.Gen) {
 
 func main() {
 	setupNode()
-	hx.Main(&hx.Prop{Name: "C03", Gen: gen, Exec: exec, Oracle: oracle, Nontrivial: nontrivial})
+	defer func() {
+		if realNode != nil {
+			realNode.Close()
+			os.RemoveAll(realNode.Dir)
+		}
+	}()
+	hx.Main(&hx.Prop{Name: "C03", Gen: gen, Exec: exec, Oracle: oracle, Nontrivial: nontrivial, Bucket: bucket})
 }
